@@ -179,21 +179,6 @@ theorem fscalar_order_cross_type_error (db : Db) (small : Rat) (op : Op) (a b : 
   unfold FSc.order FSc.valuesToCompare
   simp [h]
 
-/-- witness that the hypothesis `NumeratorKept` cannot be dropped on the current code (posc database,
-`SMALL = 1e-8`): with a = FractionScalar(FractionValue(1e-9), 'm') and
-b = FractionScalar(FractionValue(0, (3, 1)), 'nm') (1 nm and 3 nm) both `a > b` and `b > a` are true,
-and neither `a <= b` nor `b <= a`: the 3e-9 m numerator of b becomes 0 inside `Fraction(number)` -/
-theorem fscalar_order_counterexample :
-    (match poscDb.simpleQuantity (Sym.ofString "length") (Sym.ofString "m"),
-           poscDb.simpleQuantity (Sym.ofString "length") (Sym.ofString "nm") with
-     | .ok qa, .ok qb =>
-       let a : FSc := ⟨⟨1 / 1000000000, 0⟩, qa⟩
-       let b : FSc := ⟨⟨0, 3⟩, qb⟩
-       let small : Rat := 1 / 100000000
-       some (a.order poscDb small .gt b, b.order poscDb small .gt a,
-             a.order poscDb small .le b, b.order poscDb small .le a)
-     | _, _ => none) = some (.ok true, .ok true, .ok false, .ok false) := by decide +kernel
-
 /-! ## the shipped database (its rows are well-formed by the generated table theorems of C01) -/
 
 theorem posc_scalar_order_iff_base {a b : Sc} (ha : a.q.Built poscDb) (hb : b.q.Built poscDb)
